@@ -839,8 +839,12 @@ class C18(FMonitor):
                           node=tn, more=st["num_item_processed"] > pushed)
             if "num_item_discarded" in st:
                 d = sum(1 for x in led.discards if x[1] == nid)
-                if st["num_item_discarded"] != d:
-                    led.V("C18", "discarded-counter", "%s reports %r discarded, %d dropped" % (nid, st["num_item_discarded"], d), node=tn)
+                # items the node let go of without pushing, packing or counting them were dropped all the same
+                held = led.held_by_processes(n)
+                lost = [it for it in led.items if led.loc[id(it)] in (("node", nid), ("source", nid)) and id(it) not in held]
+                if st["num_item_discarded"] != d + len(lost):
+                    led.V("C18", "discarded-counter", "%s reports %r discarded, %d dropped%s" % (nid, st["num_item_discarded"], d + len(lost),
+                          " (%d of them without touching the counter: %s)" % (len(lost), [it.id for it in lost[:4]]) if lost else ""), node=tn)
             if tn == "Sink":
                 got = len(led.pulls.get(nid, []))
                 if st["num_item_received"] != got:
@@ -955,5 +959,47 @@ class C06F(FMonitor):
                 self.t_ready.setdefault(it.id, led.env.now)
 
 
+class C14F(FMonitor):
+    """whole factories: a fleet hands its items out batch by batch (earlier availability first) and, within a batch, in loading
+    order -- also when dozens of items have passed (item names with more digits, long lists)"""
+    prop = "C14"
+
+    def __init__(self, led):
+        self.t_ready = {}
+        self.seq = {}
+        self.n = 0
+        self.seen = 0
+        self.on_edge = collections.defaultdict(list)
+
+    def on_step(self, led):
+        ev = led.events
+        for (t, kind, eid, nid, iid, x) in ev[self.seen:]:
+            e = led.edges.get(eid)
+            if e is None or tname(e) != "Fleet":
+                continue
+            if kind == "put":
+                self.n += 1
+                self.seq[iid] = self.n
+                self.on_edge[eid].append(iid)
+            elif kind == "get" and iid in self.on_edge[eid]:
+                mine = (self.t_ready.get(iid, t), self.seq.get(iid, 0))
+                for other in self.on_edge[eid]:
+                    if other == iid or other not in self.t_ready:
+                        continue
+                    o = (self.t_ready[other], self.seq[other])
+                    if o[0] < mine[0] - EPS or (abs(o[0] - mine[0]) <= EPS and o[1] < mine[1]):
+                        led.V("C14", "d-loading-order", "fleet %s handed out %s (loaded %d-th, available since %s) while %s (loaded %d-th, available since %s) was still waiting"
+                              % (eid, iid, mine[1], mine[0], other, o[1], o[0]), factory=True, same_batch=abs(o[0] - mine[0]) <= EPS)
+                        break
+                self.on_edge[eid].remove(iid)
+                self.t_ready.pop(iid, None)
+        self.seen = len(ev)
+        for eid, e in led.edges.items():
+            if tname(e) == "Fleet":
+                for it in ready(e):
+                    self.t_ready.setdefault(it.id, led.env.now)
+
+
 FMONITORS["C01"] = [C01F]
 FMONITORS["C06"] = [C06F]
+FMONITORS["C14"] = [C14F]
